@@ -80,7 +80,37 @@ static inline std::vector<std::string> split(const std::string& s) {
   return v;
 }
 
+// the name of an error code; the error object's other observers (c_str, f_str, comparisons with codes and with other
+// errors in both orders, conversion to bool, operator<<) are cross-checked on the way: "BadErrorObject" otherwise
+static inline const char* codeNameRaw(DeserializationError::Code c) {
+  switch (c) {
+    case DeserializationError::Ok: return "Ok";
+    case DeserializationError::EmptyInput: return "EmptyInput";
+    case DeserializationError::IncompleteInput: return "IncompleteInput";
+    case DeserializationError::InvalidInput: return "InvalidInput";
+    case DeserializationError::NoMemory: return "NoMemory";
+    case DeserializationError::TooDeep: return "TooDeep";
+  }
+  return "BadCode";
+}
+static inline bool errorObjectCoherent(DeserializationError e) {
+  const char* name = codeNameRaw(e.code());
+  if (strcmp(e.c_str(), name) != 0) return false;
+  std::ostringstream os1, os2; os1 << e; os2 << e.code();
+  if (os1.str() != name || os2.str() != name) return false;
+  if (bool(e) != (e.code() != DeserializationError::Ok)) return false;
+  static const DeserializationError::Code all[] = {DeserializationError::Ok, DeserializationError::EmptyInput, DeserializationError::IncompleteInput,
+                                                   DeserializationError::InvalidInput, DeserializationError::NoMemory, DeserializationError::TooDeep};
+  for (DeserializationError::Code c : all) {
+    bool same = c == e.code();
+    DeserializationError other(c);
+    if ((e == c) != same || (c == e) != same || (e != c) == same || (c != e) == same) return false;
+    if ((e == other) != same || (other == e) != same || (e != other) == same) return false;
+  }
+  return true;
+}
 static inline const char* codeName(DeserializationError e) {
+  if (!errorObjectCoherent(e)) return "BadErrorObject";
   switch (e.code()) {
     case DeserializationError::Ok: return "Ok";
     case DeserializationError::EmptyInput: return "EmptyInput";
